@@ -113,7 +113,7 @@ ENUM5 = [["set", "a", 1], ["set", "b", "{{a}}x"], ["store"], ["ucfs"],
 
 KEYS = ["a", "b", "c", "d.x", "d.y", "e.f.g", "a", "b", "r",    # "r" is also a run-time key
         "a", "c", "d.x", "b", "output.prefix", "output.suffix"]   # static names of output.*
-CONSTS = [1, 2, "s", "t", True, 0, "", 3.5]
+CONSTS = [1, 2, "s", "t", True, 0, "", 3.5, [1, 2], ["cut", [0, 1]]]
 FORMATS = ["{{a}}", "{{b}}_{{a}}", "p{{c}}", "{{d.x}}", "{{d.y}}{{a}}", "{{e.f.g}}", "{{d}}",
            "{{a}}{{a}}", "{{c}}-{{b}}"]
 DICTS = [["d", {"x": 5, "z": {"w": 1}}], ["e", {"f": {"g": 7}}], ["e.f", {"g": 8, "h": 9}],
@@ -490,7 +490,17 @@ def _nested_then_later():
                 yield ["seq", [["set", "c", 0], ["split", [["seq", body], ["tuple", [["data", "inc"]]]]]]]
 
 
+SRC_TAILS = ["ucfs", "store", "mkfn", "seq-store", "f-ucfs", "set-ucfs", "seq-ucfs-store"]
+
+
 def cases(tier, seed):
+    # a Source whose first element is itself a Source (or a Split of Sources) that sets context
+    for first in ("source", "source-two-keys", "split-of-sources", "source-in-source"):
+        for tail in SRC_TAILS:
+            yield {"k": "srcfirst", "first": first, "tail": tail}
+    for root in ("seq", "source", "nested-split"):
+        for nbr in (2, 3):
+            yield {"k": "userctx", "root": root, "n": nbr}
     for tree in _nested_then_later():
         yield {"k": "tree", "tree": tree, "flow": FLOW, "vseed": 6, "nv": NVARIANTS[tier]}
     for tree in _dropped_key():
@@ -862,7 +872,136 @@ class Rep(object):
 
 
 # ------------------------------------------------------------------ the case
+def _ident(x):
+    return x
+
+
+def run_srcfirst(r, obs):
+    """The elements after the first element of a Source get the static context that the first
+    element - a nested Source, a Split of Sources - provides, folded with what precedes them."""
+    import lena.core
+    import lena.meta
+    import lena.output
+    obs.nontrivial = True
+    first, tail = r["first"], r["tail"]
+    S, Set = lena.core.Source, lena.meta.SetContext
+
+    def inner(run=None):
+        els = [Set("detector", "far")]
+        if run is not None:
+            els.append(Set("run", run))
+        return S(*(els + [[(1, {}), (2, {"own": 1})], _ident]))
+    if first == "source":
+        head, base = inner(), {"detector": "far"}
+    elif first == "source-two-keys":
+        head, base = S(Set("detector", "far"), Set("data.cycle", 2), [(1, {}), (2, {"own": 1})]), \
+            {"detector": "far", "data": {"cycle": 2}}
+    elif first == "split-of-sources":
+        # the context of a Split is what all its branches have in common
+        head, base = lena.core.Split([inner(1), inner(2)]), {"detector": "far"}
+    else:
+        head, base = S(inner(), _ident), {"detector": "far"}
+    store = lena.meta.StoreContext()
+    exp_store = copy.deepcopy(base)
+    exp_vals = None        # expected static part merged into every value, or None
+    exp_final = copy.deepcopy(base)
+    if tail == "ucfs":
+        els = [lena.meta.UpdateContextFromStatic()]
+        exp_vals = base
+    elif tail == "store":
+        els = [store]
+    elif tail == "mkfn":
+        els = [lena.output.MakeFilename("hist_{{detector}}")]
+        exp_vals = {"output": {"filename": "hist_far"}}
+    elif tail == "seq-store":
+        els = [lena.core.Sequence(_ident, store)]
+    elif tail == "f-ucfs":
+        els = [_ident, lena.meta.UpdateContextFromStatic(), _ident]
+        exp_vals = base
+    elif tail == "set-ucfs":
+        els = [Set("cycle", 3), lena.meta.UpdateContextFromStatic(), store]
+        exp_final = dict(copy.deepcopy(base), cycle=3)
+        exp_vals = exp_final
+        exp_store = exp_final
+    else:
+        els = [lena.core.Sequence(lena.meta.UpdateContextFromStatic(), _ident), store]
+        exp_vals = base
+    outer = S(*([head] + els))
+    what = "Source(%s, %s)" % (first, tail)
+    obs.count("source_first_programs")
+    obs.check(outer._get_context() == exp_final, "static-context-differs:source-first-element",
+              "%s._get_context() = %r, expected %r" % (what, outer._get_context(), exp_final))
+    if "store" in tail:
+        obs.check(store.context == exp_store, "static-context-differs:source-first-element",
+                  "%s: the StoreContext after the first element holds %r, the fold of what "
+                  "precedes it is %r" % (what, store.context, exp_store))
+    vals = list(outer())
+    n_exp = 4 if first == "split-of-sources" else 2
+    obs.check(len(vals) == n_exp, "flow-differs:source-first-element",
+              "%s yielded %d values, expected %d" % (what, len(vals), n_exp))
+    if exp_vals is not None:
+        for v in vals:
+            ctx = v[1] if isinstance(v, tuple) and len(v) == 2 else None
+            ok = isinstance(ctx, dict) and all(ctx.get(k) == x for k, x in exp_vals.items())
+            obs.check(ok, "run-time-context-differs:source-first-element",
+                      "%s yielded %r: its context lacks the static context %r"
+                      % (what, v, exp_vals))
+
+
+class _Keeper(object):
+    """A user element that keeps the static context it is given (as it is given)."""
+
+    def __init__(self):
+        self.context = None
+
+    def _set_context(self, context):
+        self.context = context
+
+    def __call__(self, value):
+        return value
+
+
+def run_userctx(r, obs):
+    """User elements with _set_context in the branches of a Split, static context with list-
+    and dict-valued keys in front of it: every branch gets an equal context and no two of them
+    (nor the SetContext elements) share a mutable object."""
+    import lena.core
+    import lena.meta
+    from rv.monitors import identity
+    obs.nontrivial = True
+    keepers = [_Keeper() for _ in range(r["n"])]
+    branches = [(keepers[0],), lena.core.Sequence(keepers[1], _ident)] + \
+        [(_ident, k) for k in keepers[2:]]
+    sets = [lena.meta.SetContext("cuts", [0, 1]), lena.meta.SetContext("d", {"x": [1], "y": 2}),
+            lena.meta.SetContext("tags", ["a", ["b"]])]
+    expected = {"cuts": [0, 1], "d": {"x": [1], "y": 2}, "tags": ["a", ["b"]]}
+    split = lena.core.Split(branches)
+    if r["root"] == "seq":
+        top = lena.core.Sequence(*(sets + [split]))
+    elif r["root"] == "source":
+        top = lena.core.Source(*(sets + [[1, 2], split]))
+    else:
+        top = lena.core.Sequence(*(sets + [lena.core.Split([(split,), (_ident,)])]))
+    obs.count("user_context_programs")
+    for i, k in enumerate(keepers):
+        obs.check(k.context == expected, "static-context-differs:user-element-in-split-branch",
+                  "user element in branch %d of a Split under %s received %r, the fold of what "
+                  "precedes the Split is %r" % (i, r["root"], k.context, expected))
+    for a in range(len(keepers)):
+        for b in range(a + 1, len(keepers)):
+            common = identity.shared(keepers[a].context, keepers[b].context)
+            obs.count("identity_checks")
+            obs.check(not common, "sibling-branches-share-static-context-object",
+                      "the user elements in branches %d and %d of one Split (under %s) were "
+                      "given contexts that share the object %r" % (a, b, r["root"], common[:1]))
+    del top
+
+
 def run_case(r, obs):
+    if r.get("k") == "userctx":
+        return run_userctx(r, obs)
+    if r.get("k") == "srcfirst":
+        return run_srcfirst(r, obs)
     obs = Rep(obs)
     tree = r["tree"]
     has_cache = any(it[0] == "cache" for _, it in M.leaves(tree))
@@ -1015,6 +1154,26 @@ def _case(r, obs, tmp):
                   % (M.KIND_NAME[rec[label]["kind"]], rec[label]["path"], common[:1]),
                   tree=tree)
 
+    # ---- (2b') identity walker: consumers in different branches of one Split hold no common
+    # mutable object (a list-valued key included): no sibling can change what another saw
+    labels = sorted(l for l in A.els if not l.startswith("#") and l in rec)
+    for ai in range(len(labels)):
+        for bi in range(ai + 1, len(labels)):
+            pa, pb = list(rec[labels[ai]]["path"]), list(rec[labels[bi]]["path"])
+            k = 0
+            while k < len(pa) and k < len(pb) and pa[k] == pb[k]:
+                k += 1
+            node = tree
+            for i in pa[:k]:
+                node = node[1][i]
+            if node[0] != "split" or k >= len(pa) or k >= len(pb):
+                continue
+            obs.count("identity_checks")
+            common = identity.shared(A.els[labels[ai]], A.els[labels[bi]])
+            obs.check(not common, "sibling-branches-share-static-context-object",
+                      "identity walker: the consumers at %r and %r, in different branches of "
+                      "one Split, hold the very same object %r"
+                      % (pa, pb, common[:1]), tree=tree)
     base = observe(A, rec, os.path.join(tmp, "a"), obs)
     ctxinfo = {"tmp": tmp, "n": itertools.count(), "flow": flow_r, "obs": obs}
     nbad = check_static(tree, rec, base, obs, "base tree", ctxinfo)
@@ -1208,3 +1367,10 @@ RULE += (' Added: for trees with an unresolvable key, the elements that are not 
 RULE += (' Every nested Sequence / Source / Split / fill sequence of a tree is also asked for its own '
          'static context (the fold up to its end); a family of nested sequences followed by a '
          'SetContext under the same top-level key.')
+RULE += (' Added: Sources whose first element is a nested Source (also inside a further Source) or a '
+         'Split of Sources that sets static context, followed by UpdateContextFromStatic / '
+         'StoreContext / MakeFilename / nested sequences / a SetContext.')
+RULE += (' Added: list-valued SetContext constants; identity walk between the consumers in '
+         'different branches of one Split.')
+RULE += (' Added: user elements that keep the static context they are given, in the branches of a '
+         'Split behind list- and dict-valued SetContext elements (identity walk between them).')
